@@ -518,7 +518,7 @@ func (fr *frame) havocModifies(st *PState, env *SpecEnv, item string, ct *Contra
 		state := Select(st.kv, cell, SState)
 		st.kv = st.Name("kv", Store(st.kv, cell, Store(state, sid, st.Fresh("store_mod", SStore))))
 	case strings.HasPrefix(item, "heap["):
-		tn := item[len("heap[") : len(item)-1]
+		tn := strings.Trim(item[len("heap["):len(item)-1], "\"")
 		gt := ex.LookupType(tn)
 		if gt == nil {
 			bail("modifies %s: unknown type", item)
